@@ -142,6 +142,10 @@ Lemma Forall2_map_right {A B C} (R : A -> C -> Prop) (g : B -> C) l1 l2 :
   Forall2 (fun a b => R a (g b)) l1 l2 -> Forall2 R l1 (map g l2).
 Proof. induction 1; cbn [map]; constructor; assumption. Qed.
 
+Lemma Forall2_map_left {A B C} (R : C -> B -> Prop) (f : A -> C) l1 l2 :
+  Forall2 (fun a b => R (f a) b) l1 l2 -> Forall2 R (map f l1) l2.
+Proof. induction 1; cbn [map]; constructor; assumption. Qed.
+
 Lemma Forall2_weaken {A B} (R R' : A -> B -> Prop) l1 l2 :
   (forall a b, R a b -> R' a b) -> Forall2 R l1 l2 -> Forall2 R' l1 l2.
 Proof. intros H. induction 1; constructor; auto. Qed.
@@ -857,9 +861,157 @@ Proof.
   - apply rel_entries_bindings; assumption.
 Qed.
 
+(** * the reference flattening is the specification's [flat_expected] *)
+Lemma own_alias_set n tasks aliases subs dflt ad cfg k t :
+  ns_wf (Coll n tasks aliases subs dflt ad cfg) = true ->
+  alias_table_own (Coll n tasks aliases subs dflt ad cfg) = true ->
+  In (k, t) tasks ->
+  forall x, In x (map (transform ad) (t_aliases t)) <->
+            In x (map fst (filter (fun a => String.eqb (snd a) k) aliases)).
+Proof.
+  intros Hwf Hat Hkt. destruct (wf_subs_nodup _ _ _ _ _ _ _ Hwf) as [ND _].
+  assert (NoDup (akeys tasks)) as NDt by (apply (NoDup_app_l _ _ ND)).
+  rewrite alias_table_own_unfold in Hat. apply andb_true_iff in Hat as [Hat _].
+  apply andb_true_iff in Hat as [Hbound Honly]. rewrite forallb_forall in Hbound, Honly.
+  intros x. split.
+  - intros Hx. apply in_map_iff in Hx. destruct Hx as [a [<- Ha]].
+    assert (In (transform ad a, k) (own_pairs ad tasks)) as Hop.
+    { unfold own_pairs. apply in_flat_map. exists (k, t). split; [exact Hkt|].
+      cbn [fst snd]. apply in_map_iff. exists a. split; [reflexivity | exact Ha]. }
+    pose proof (Hbound _ Hop) as Hb. cbn [fst snd] in Hb.
+    destruct (assoc (transform ad a) aliases) as [k'|] eqn:Ea; [|discriminate].
+    cbn in Hb. apply String.eqb_eq in Hb. subst k'. apply assoc_In in Ea.
+    apply in_map_iff. exists (transform ad a, k). split; [reflexivity|].
+    apply filter_In. split; [exact Ea | cbn [snd]; apply String.eqb_refl].
+  - intros Hx. apply in_map_iff in Hx. destruct Hx as [[x' k'] [E Hx]]. cbn [fst] in E. subst x'.
+    apply filter_In in Hx. destruct Hx as [Hx Hk]. cbn [snd] in Hk. apply String.eqb_eq in Hk. subst k'.
+    pose proof (Honly _ Hx) as Ho. apply existsb_exists in Ho. destruct Ho as [[x' k'] [Hq Heq]].
+    cbn [fst snd] in Heq. apply andb_true_iff in Heq as [E1 E2].
+    apply String.eqb_eq in E1, E2. subst x' k'.
+    unfold own_pairs in Hq. apply in_flat_map in Hq. destruct Hq as [[k2 t2] [Hkt2 Hq]].
+    cbn [fst snd] in Hq. apply in_map_iff in Hq. destruct Hq as [a [E Ha]].
+    injection E as Ex Ek. subst k2.
+    assert (t2 = t) as ->.
+    { pose proof (assoc_in_nodup k t tasks NDt Hkt) as A1.
+      pose proof (assoc_in_nodup k t2 tasks NDt Hkt2) as A2. congruence. }
+    rewrite <- Ex. apply in_map. exact Ha.
+Qed.
+
+Lemma join_cons x l : l <> [] -> join "." (x :: l) = dot_pfx x (join "." l).
+Proof. destruct l; [contradiction | reflexivity]. Qed.
+
+Definition tnt_agrees (dflt : option string) (path : list string) (e : lentry) (eb : entry * bool) : Prop :=
+  exists rel,
+    fst (fst (fst (fst eb))) = path ++ rel /\
+    le_name e = join "." (rel ++ [snd (fst (fst (fst eb)))]) /\
+    le_task e = snd (fst (fst eb)) /\
+    (forall x, In x (le_aliases e) <->
+               (In x (map (dotted rel) (snd (fst eb))) \/
+                (snd eb = true /\ rel <> [] /\ x = join "." rel))) /\
+    (rel = [] -> snd eb = opt_str_eqb dflt (Some (snd (fst (fst (fst eb)))))) /\
+    (rel <> [] -> contains_char "." (le_name e) = true).
+
+Lemma tnt_bindings : forall c, ns_wf c = true -> ns_canon c = true -> alias_table_own c = true ->
+  forall path, Forall2 (tnt_agrees (c_default c) path) (tnt c) (bindings c path).
+Proof.
+  induction c as [n tasks aliases subs dflt ad cfg IH] using coll_ind'.
+  intros Hwf Hcan Hat path. pose proof Hwf as Hwf0. pose proof Hat as Hat0.
+  destruct (wf_subs_nodup _ _ _ _ _ _ _ Hwf) as [ND Hwsubs].
+  rewrite ns_canon_unfold in Hcan. apply andb_true_iff in Hcan as [Hkeys Hcsubs].
+  rewrite alias_table_own_unfold in Hat. apply andb_true_iff in Hat as [_ Hatsubs].
+  rewrite forallb_forall in Hkeys, Hcsubs, Hatsubs. rewrite Forall_forall in IH.
+  rewrite tnt_unfold, bindings_unfold. cbn [c_default]. apply Forall2_app.
+  - unfold own_entries. apply Forall2_map_same. intros [k t] Hkt.
+    exists []. unfold le_name, le_task, le_aliases. cbn [fst snd].
+    rewrite app_nil_r. repeat split; try reflexivity; try contradiction.
+    + intros Hx. left.
+      rewrite (map_ext (dotted []) (fun a => a)) by reflexivity. rewrite map_id.
+      apply (own_alias_set _ _ _ _ _ _ _ k t Hwf0 Hat0 Hkt). exact Hx.
+    + intros [Hx|[_ [Hx _]]]; [|contradiction].
+      rewrite (map_ext (dotted []) (fun a => a)) in Hx by reflexivity. rewrite map_id in Hx.
+      apply (own_alias_set _ _ _ _ _ _ _ k t Hwf0 Hat0 Hkt). exact Hx.
+  - apply Forall2_flat_map_same. intros [cn sc] Hkc. cbn [fst snd].
+    apply Forall2_map_left.
+    pose proof (IH _ Hkc (Hwsubs _ Hkc) (Hcsubs _ Hkc) (Hatsubs _ Hkc) (path ++ [cn])) as H.
+    cbn [snd] in H. revert H. apply Forall2_weaken.
+    intros e0 eb [rel' [Hp [Hn [Ht [Ha [Hd0 Hdot]]]]]].
+    exists (cn :: rel').
+    assert (opt_str_eqb (c_default sc) (Some (le_name e0)) = true <-> (rel' = [] /\ snd eb = true)) as Hdef.
+    { destruct rel' as [|r0 rl].
+      - rewrite (Hd0 eq_refl), Hn. cbn [app join]. tauto.
+      - split; [|intros [E _]; discriminate]. intros E. exfalso.
+        pose proof (Hdot ltac:(discriminate)) as Hc.
+        destruct (c_default sc) as [dd|] eqn:Edd; [|discriminate]. cbn in E. apply String.eqb_eq in E.
+        pose proof (Hwsubs _ Hkc) as Hw. pose proof (Hcsubs _ Hkc) as Hcn. cbn [snd] in Hw, Hcn.
+        destruct sc as [n2 t2 a2 s2 d2 ad2 g2]. cbn [c_default] in Edd. subst d2.
+        pose proof (default_dotfree _ _ _ _ _ _ _ Hw Hcn) as Hdd. rewrite E, Hc in Hdd. discriminate. }
+    unfold le_sub. unfold le_name, le_task, le_aliases in *. cbn [fst snd] in *.
+    split; [rewrite Hp, <- app_assoc; reflexivity|].
+    split; [rewrite Hn; symmetry; apply (join_cons cn (rel' ++ [snd (fst (fst (fst eb)))]));
+            destruct rel'; discriminate|].
+    split; [exact Ht|].
+    split; [|split; [intros E; discriminate | intros _; apply contains_dot_pfx]].
+    intros x. rewrite in_app_iff. split.
+    + intros [Hx|Hx].
+      * apply in_map_iff in Hx. destruct Hx as [y [<- Hy]]. apply Ha in Hy.
+        destruct Hy as [Hy|[Hd [Hr Hy]]].
+        -- left. apply in_map_iff in Hy. destruct Hy as [a [<- Hal]].
+           apply in_map_iff. exists a. split; [|exact Hal].
+           unfold dotted. apply (join_cons cn (rel' ++ [a])). destruct rel'; discriminate.
+        -- right. split; [exact Hd|]. split; [discriminate|]. subst y.
+           symmetry. apply join_cons. exact Hr.
+      * destruct (opt_str_eqb (c_default sc) (Some (fst (fst e0)))) eqn:Ed; [|contradiction].
+        destruct Hx as [<-|[]]. destruct (proj1 Hdef eq_refl) as [-> Hd].
+        right. split; [exact Hd|]. split; [discriminate | reflexivity].
+    + intros [Hx|[Hd [_ Hx]]].
+      * left. apply in_map_iff in Hx. destruct Hx as [a [<- Hal]].
+        apply in_map_iff. exists (dotted rel' a). split.
+        -- unfold dotted. symmetry. apply (join_cons cn (rel' ++ [a])). destruct rel'; discriminate.
+        -- apply Ha. left. apply in_map; exact Hal.
+      * destruct rel' as [|r0 rl].
+        -- right. rewrite (proj2 Hdef (conj eq_refl Hd)). left. symmetry. exact Hx.
+        -- left. apply in_map_iff. exists (join "." (r0 :: rl)). split.
+           ++ rewrite Hx. symmetry. apply join_cons. discriminate.
+           ++ apply Ha. right. split; [exact Hd|]. split; [discriminate | reflexivity].
+Qed.
+
+(** the entries of [tnt c] are, one for one and in the same order, the
+    specification's [flat_expected c]: same dotted name, same task, the same
+    alias names *)
+Definition flat_agrees (e : lentry) (x : entry) : Prop :=
+  fst (fst (fst x)) = [] /\ snd (fst (fst x)) = le_name e /\ snd (fst x) = le_task e /\
+  (forall a, In a (le_aliases e) <-> In a (snd x)).
+
+Definition flat_of1 (eb : entry * bool) : entry :=
+  let '((path, key, tid, als), dflt) := eb in
+  (([] : list string), dotted path key, tid,
+   map (dotted path) als ++
+   (if (dflt : bool) then match path with [] => [] | _ => [join "." path] end else [])).
+
+Lemma flat_expected_eq c : flat_expected c = map flat_of1 (bindings c []).
+Proof. reflexivity. Qed.
+
+Theorem tnt_expected c :
+  ns_wf c = true -> ns_canon c = true -> alias_table_own c = true ->
+  Forall2 flat_agrees (tnt c) (flat_expected c).
+Proof.
+  intros Hwf Hcan Hat. rewrite flat_expected_eq. apply Forall2_map_right.
+  pose proof (tnt_bindings c Hwf Hcan Hat []) as H. revert H. apply Forall2_weaken.
+  intros e [[[[p key] tid] als] d] [rel [Hp [Hn [Ht [Ha _]]]]]. cbn [fst snd app] in *. subst p.
+  unfold flat_agrees, flat_of1. cbn [fst snd]. repeat split.
+  - symmetry. exact Hn.
+  - symmetry. exact Ht.
+  - intros Hx. apply Ha in Hx. apply in_or_app. destruct Hx as [Hx|[-> [Hr ->]]]; [left; exact Hx|].
+    right. destruct rel; [contradiction | left; reflexivity].
+  - intros Hx. apply Ha. apply in_app_or in Hx. destruct Hx as [Hx|Hx]; [left; exact Hx|].
+    right. destruct d; [|contradiction]. destruct rel as [|r0 rl]; [contradiction|].
+    destruct Hx as [<-|[]]. split; [reflexivity|]. split; [discriminate | reflexivity].
+Qed.
+
 Print Assumptions flat_listing.
 Print Assumptions flat_listed_once.
 Print Assumptions flat_listed_accepted.
 Print Assumptions listed_name_accepted.
 Print Assumptions nested_listing.
 Print Assumptions nested_listing_spec.
+Print Assumptions tnt_expected.
